@@ -116,11 +116,15 @@ class PITFrozenTimestepMasker(PITTimestepMasker):
             rf,
             trainable=False,
         )
-        self.beta.requires_grad = False
+        # a frozen mask can never be trained: keep it as a buffer (same name, same state_dict
+        # key) rather than as a parameter, so that no optimizer or train_*() call can reach it
+        beta = self.beta.detach()
+        del self.beta
+        self.register_buffer('beta', beta)
 
     @property
     def trainable(self) -> bool:
-        return self.beta.requires_grad
+        return False
 
     @trainable.setter
     def trainable(self, value: bool):
